@@ -115,12 +115,12 @@ theorem inv3_publish {s : State} {t : Tid} {p : PC} {f : Frame} {rest : List Fra
     simp only [upd, hm, ↓reduceIte]
     exact inv.free_none m h
   · intro m h
-    simp only [setPc, publish, upd] at h ⊢
+    simp only [setPc, publish, goSleep, upd] at h ⊢
     split
     · omega
     · rename_i hm; simp only [hm, ↓reduceIte] at h; have := inv.ptime_lt m h; omega
   · intro a b ha hb h
-    simp only [setPc, publish, upd] at ha hb h
+    simp only [setPc, publish, goSleep, upd] at ha hb h
     by_cases h1 : a = f.mod <;> by_cases h2 : b = f.mod <;> simp only [h1, h2, ↓reduceIte] at ha hb h
     · rw [h1, h2]
     · have := inv.ptime_lt b hb; omega
@@ -249,9 +249,9 @@ theorem inv3_unset {s : State} {t : Tid} {f : Frame} {rest : List Frame} {p : PC
       simp only [hother t1 ht u hu, ↓reduceIte] at h
       exact hR h
 
-theorem inv3_pop {P : Project} {s : State} {t : Tid} {f : Frame} {rest : List Frame} {r : Res} {ld : Mod → Bool} {fl : Mod → Res} {ft : Mod → Nat}
+theorem inv3_pop {P : Project} {s : State} {t : Tid} {f : Frame} {rest : List Frame} {r : Res} {ld : Mod → Bool} {fl : Mod → Res} {ft : Mod → Nat} {asl : Mod → List Tid}
     (inv1 : Inv1 P s) (inv2 : Inv2 s) (inv : Inv3 s) (hpc : s.pc t = .fin r) (hst : s.stack t = f :: rest) :
-    Inv3 { s with loaded := ld, result := fl, ftime := ft, clock := s.clock + 1,
+    Inv3 { s with loaded := ld, result := fl, asleep := asl, ftime := ft, clock := s.clock + 1,
                   stack := upd s.stack t rest, pc := upd s.pc t (.unset r) } := by
   have hrest := mem_stack_ne_of_nodup inv2 hst
   have hother : ∀ t1, t1 ≠ t → ∀ g ∈ s.stack t1, g.mod ≠ f.mod :=
@@ -324,8 +324,17 @@ theorem inv3_fstep {P : Project} {s s' : State} {t : Tid} (inv1 : Inv1 P s) (inv
   case wlockRet d hpc hl =>
     refine inv3_setPc inv (fun f rest h => ?_)
     simp [topPtr, hpc, inv1.tgt_frame t f rest d h (by simp [hpc, target])]
-  case wlockSleep d hpc hl => exact inv3_setPc inv (fun _ _ _ => by simp [topPtr, hpc])
-  case wake d hpc hl =>
+  case wlockSleep d hpc hl =>
+    refine inv3_of_eq inv rfl rfl rfl rfl (fun t1 f rest _ => ?_)
+    simp only [goSleep, upd]; split
+    · rename_i h; subst h; simp [topPtr, hpc]
+    · rfl
+  case wakeAgain d hpc hna hl =>
+    refine inv3_of_eq inv rfl rfl rfl rfl (fun t1 f rest _ => ?_)
+    simp only [goSleep, upd]; split
+    · rename_i h; subst h; simp [topPtr, hpc]
+    · rfl
+  case wake d hpc hna hl =>
     refine inv3_setPc inv (fun f rest h => ?_)
     simp [topPtr, hpc, inv1.tgt_frame t f rest d h (by simp [hpc, target])]
   case unsetRoot r hpc hst => exact inv3_setPc inv (fun f rest h => by simp [hst] at h)
